@@ -25,6 +25,7 @@ RULE = ('Valid keys: scalar d drawn from boundary-biased classes (uniform, 1..10
         'returns. Non-trivial = every non-key case, and every valid case whose scalar class is not "uniform" '
         '[address histories: 2..6 fully specified address() / network_change() / address_obj requests on ONE object, each '
         'compared with the standard encoding for its own arguments and the current network] '
+        '[views (public forms, hash160, point) read again after each address request, on fresh objects and on the queried one] '
         'or whose (network, script type) is not (bitcoin, p2pkh); distinct by (kind, key material, form, class, '
         'network, compressed, order).')
 ASSUMPTIONS = ['ref/ec.py, ref/base58.py, ref/bech32.py, ref/address.py are correct (self-tested against BIP173/350, '
@@ -189,6 +190,13 @@ def _check_addresses(ctx, keys, make, pt, compressed, network, order, case, tag,
                 raise Discrepancy(tag + '.redeemscript', 'nested segwit redeem script %s, reference %s' %
                                   (red.hex(), _exp_redeem(pub).hex()), case)
         ctx.count()
+        # a fresh object asked for this address first and for its own views afterwards (the views of a key do not
+        # depend on which address was requested from it before)
+        kf_ = make(None)
+        _addr_call(lambda: kf_.address(script_type=st_, encoding=enc), tag + '.address.' + cfg,
+                   '%s.address(script_type=%r, encoding=%r)' % (cls, st_, enc), case)
+        _check_point_views(kf_, pt, compressed, case, tag + '.after_address_' + cfg)
+    _check_point_views(k, pt, compressed, case, tag + '.after_addresses')
     # (b) defaults on fresh objects: Key -> p2pkh; HDKey(witness_type) -> its default script type
     if cls == 'Key':
         k2 = make(None)
@@ -204,6 +212,7 @@ def _check_addresses(ctx, keys, make, pt, compressed, network, order, case, tag,
             if got != exp[cfg]:
                 raise Discrepancy(tag + '.hdaddress.' + cfg, 'HDKey(witness_type=%r).address() on %s = %s, reference %s'
                                   % (CFG_WITNESS[cfg], network, got, exp[cfg]), case)
+            _check_point_views(k2, pt, compressed, case, tag + '.after_hdaddress_' + cfg)
     # (c) Address objects from the public key and from its hash
     for cfg in seq:
         st_, enc = CFG_ARGS[cfg]
